@@ -9,6 +9,16 @@
 // coordinate sources, with and without orientation annotations produced by
 // annotate.Relations, and the feature geometry is compared with the ground
 // truth as a set of polygons of cyclic rings.
+//
+// Boundary audit: the catalogue also holds three outers, three holes, rings
+// one grid unit apart, hole vertices level with vertices / horizontal edges
+// of other rings, collinear runs, slivers and shapes far from the origin,
+// outers far apart and nine-decimal locations; the plan entries marked x run
+// their cases through extended variants as well (id classes, way order,
+// mixed coordinate sources, members that are no ways, converter options,
+// geometry on the members, second calls of Convert and annotate.Relations).
+// Not judged (the property text does not decide them): duplicate members,
+// member ways with other roles, contradicting orientation annotations.
 package main
 
 import (
@@ -36,16 +46,39 @@ type planEntry struct {
 	minPieces int    // configurations with fewer pieces are left out
 	maxPieces int    // 0 = no bound
 	pinned    []bool // rings that stay one closed way from vertex 0 (nil = none)
+	// ext: the configurations of this entry are also run through the extended
+	// variants (id classes, way order, mixed coordinate sources, members that
+	// are no ways, converter options, second calls)
+	ext bool
+	// rot: member orders are the rotations + reversal of the sequential and
+	// the interleaved order even below the tier's full-permutation bound
+	rot bool
 }
 
 func e(truth string, maxPieces int, pinned ...bool) planEntry {
-	return planEntry{truth, 0, maxPieces, pinned}
+	return planEntry{truth: truth, maxPieces: maxPieces, pinned: pinned}
+}
+
+// x: like e, and the configurations also get the extended variants.
+func x(truth string, maxPieces int, pinned ...bool) planEntry {
+	return planEntry{truth: truth, maxPieces: maxPieces, pinned: pinned, ext: true}
 }
 
 // many: only configurations with minPieces..maxPieces pieces (used above the
 // full-permutation bound, where orders are rotations + reversal).
 func many(truth string, minPieces, maxPieces int, pinned ...bool) planEntry {
-	return planEntry{truth, minPieces, maxPieces, pinned}
+	return planEntry{truth: truth, minPieces: minPieces, maxPieces: maxPieces, pinned: pinned}
+}
+
+// xmany: like many, with the extended variants.
+func xmany(truth string, minPieces, maxPieces int, pinned ...bool) planEntry {
+	return planEntry{truth: truth, minPieces: minPieces, maxPieces: maxPieces, pinned: pinned, ext: true}
+}
+
+// rot: configurations with minPieces..maxPieces pieces, rotations + reversal
+// only whatever the number of pieces.
+func rot(truth string, minPieces, maxPieces int, pinned ...bool) planEntry {
+	return planEntry{truth: truth, minPieces: minPieces, maxPieces: maxPieces, pinned: pinned, rot: true}
 }
 
 const (
@@ -72,6 +105,32 @@ func plan(quick bool) []planEntry {
 			e("G6-U-U", 3), e("G6-U-U-notch", 3), e("G6-U-U-notch", 4, T, F, T),
 			// many pieces: rotations + reversal of the sequential and interleaved orders
 			many("G2-tri-tri", 6, 6), many("G4-dart-notch", 7, 7), many("G5-tri-quad", 8, 8, F, F, T, T),
+
+			// ---- boundary audit ----
+			// extended variants on a cross-section of the families above
+			x("G1-tri", 0), x("G1-quad-cw", 3), x("G1-pent", 2), x("G2-quad-tri", 3), x("G2-pent-tri", 3), x("G3-quad-tri-quad", 3),
+			x("G4-dart-notch", 3), x("G5-quad-quad", 4, T, T, T, T), x("G6-U-U-notch", 3, T, T, T),
+			xmany("G2-tri-tri", 6, 6, F, T), xmany("G5-tri-quad", 8, 8, T, F, T, T),
+			// three outers; three outers with a hole each
+			x("G7-three", 4, F, T, T), e("G7-three", 4, T, F, T),
+			xmany("G7-three-holes", 6, 6, T, T, T, T, T, T),
+			// three holes: outer one closed way (old-style path) / in two pieces
+			x("G8-quad-3holes", 4, T, T, T, T), e("G8-quad-3holes", 4, F, T, T, T), rot("G8-quad-3holes", 5, 5, F, T, T, T),
+			rot("G8-quad-3holes", 5, 5, T, T, T, F),
+			// one grid unit apart
+			x("G9-snug", 4, T, T, T, T), rot("G9-snug", 5, 5, T, F, T, T), rot("G9-snug", 5, 5, F, T, T, T), rot("G9-snug", 5, 5, T, T, F, T),
+			// level vertices (ray-casting corner cases)
+			x("G10-level", 4, T, T, T, T), x("G10-level-mx", 4, T, T, T, T), x("G10-level-t", 4, T, T, T, T),
+			rot("G10-level", 5, 5, T, F, T, T), rot("G10-level-mx", 5, 5, T, F, T, T), rot("G10-level-t", 5, 5, T, F, T, T),
+			x("G10-own-level", 3, F, T), x("G10-own-level-t", 3, F, T),
+			// collinear runs
+			x("G11-runs", 2), e("G11-runs", 3),
+			// far from the origin, slivers, outers far apart, nine decimals
+			x("G12-far-sliver", 3), e("G12-far-sliver", 4, F, T, T), e("G12-far-sliver", 4, T, T, F),
+			x("G12-far-nw", 4, T, T, T, T), x("G12-far-sw", 4, T, T, T, T), x("G12-far-ne", 4, T, T, T, T),
+			rot("G12-far-sw", 5, 5, F, T, T, T), rot("G12-far-ne", 5, 5, T, T, F, T),
+			x("G12-apart", 4, T, T, T, T), rot("G12-apart", 5, 5, F, T, T, T),
+			x("G13-decimals", 4, T, T, T, T), rot("G13-decimals", 5, 5, F, T, T, T), rot("G13-decimals", 5, 5, T, F, T, T),
 		}
 	}
 	return []planEntry{
@@ -88,12 +147,47 @@ func plan(quick bool) []planEntry {
 		// many pieces: rotations + reversal of the sequential and interleaved orders
 		many("G2-quad-quad", 7, 8), many("G4-quad-quad", 7, 8), many("G2-pent-tri", 8, 8),
 		many("G3-quad-tri-tri", 11, 11), many("G5-tri-quad", 7, 8, F, F, T, T), many("G5-quad-quad", 9, 9, F, F, T, T),
+
+		// ---- boundary audit ----
+		// extended variants on a cross-section of the families above
+		x("G1-tri", 0), x("G1-quad-cw", 0), x("G1-pent", 3), x("G1-collinear", 3),
+		x("G2-tri-tri", 3), x("G2-quad-tri", 3), x("G2-pent-tri", 3), x("G3-quad-tri-quad", 3), x("G3-quad-tri-tri", 4, F, T, T),
+		x("G4-dart-notch", 3), x("G4-notch-dart", 3), x("G5-quad-quad", 4, T, T, T, T), x("G5-tri-quad", 4, F, T, T, T),
+		x("G6-U-U", 3), x("G6-U-U-notch", 3),
+		xmany("G2-quad-quad", 7, 7), xmany("G5-tri-quad", 8, 8, F, F, T, T), xmany("G3-quad-tri-tri", 11, 11),
+		// three outers; three outers with a hole each (six pieces: every order)
+		x("G7-three", 3), e("G7-three", 4), e("G7-three", 5, F, T, T), e("G7-three", 5, T, F, T), e("G7-three", 5, T, T, F),
+		x("G7-three-holes", 6, T, T, T, T, T, T),
+		many("G7-three-holes", 7, 7, F, T, T, T, T, T), many("G7-three-holes", 7, 7, T, F, T, T, T, T), many("G7-three-holes", 7, 8, T, T, T, T, F, F),
+		// three holes
+		x("G8-quad-3holes", 4), e("G8-quad-3holes", 5, F, T, T, T), e("G8-quad-3holes", 5, T, F, T, T),
+		e("G8-quad-3holes", 5, T, T, F, T), e("G8-quad-3holes", 5, T, T, T, F), rot("G8-quad-3holes", 6, 6, F, T, T, T),
+		many("G8-quad-3holes", 7, 9, F, F, T, T),
+		// one grid unit apart
+		x("G9-snug", 4, T, T, T, T), e("G9-snug", 4), e("G9-snug", 5, F, T, T, T), e("G9-snug", 5, T, F, T, T), e("G9-snug", 5, T, T, F, T), e("G9-snug", 5, T, T, T, F),
+		many("G9-snug", 7, 8, T, F, F, T),
+		// level vertices
+		x("G10-level", 4, T, T, T, T), e("G10-level", 4), x("G10-level-mx", 4, T, T, T, T), x("G10-level-t", 4, T, T, T, T), e("G10-level-mx", 4), e("G10-level-t", 4),
+		e("G10-level", 5, T, F, T, T), e("G10-level", 5, T, T, F, T), e("G10-level-mx", 5, T, F, T, T), e("G10-level-t", 5, T, F, T, T),
+		e("G10-level-mx", 5, F, T, T, T), e("G10-level-t", 5, T, T, T, F),
+		x("G10-own-level", 3), x("G10-own-level-t", 3), e("G10-own-level", 4, F, T), e("G10-own-level-t", 4, F, T),
+		// collinear runs
+		x("G11-runs", 3), e("G11-runs", 4), many("G11-runs", 7, 7, F, T), many("G11-runs", 11, 11),
+		// far from the origin, slivers, outers far apart, nine decimals
+		x("G12-far-sliver", 3), e("G12-far-sliver", 4), e("G12-far-sliver", 5, F, T, T), e("G12-far-sliver", 5, T, T, F),
+		x("G12-far-nw", 4, T, T, T, T), e("G12-far-nw", 4), x("G12-far-sw", 4, T, T, T, T), x("G12-far-ne", 4, T, T, T, T),
+		e("G12-far-nw", 5, T, F, T, T), e("G12-far-sw", 5, F, T, T, T), e("G12-far-ne", 5, T, T, F, T),
+		x("G12-apart", 4, T, T, T, T), e("G12-apart", 4), e("G12-apart", 5, F, T, T, T), e("G12-apart", 5, T, T, T, F),
+		x("G13-decimals", 4), e("G13-decimals", 5, F, T, T, T), e("G13-decimals", 5, T, F, T, T),
+		e("G13-decimals", 5, T, T, F, T), e("G13-decimals", 5, T, T, T, F), many("G13-decimals", 7, 8, F, F, T, T),
 	}
 }
 
 type unit struct {
 	truth polycut.Truth
 	cfg   polycut.Config
+	ext   bool
+	rot   bool // rotations + reversal only (no plan entry asks for every order)
 }
 
 func cfgKey(name string, c polycut.Config) string {
@@ -101,10 +195,14 @@ func cfgKey(name string, c polycut.Config) string {
 }
 
 func units(quick bool) []unit {
-	seen := map[string]bool{}
+	seen := map[string]int{}
 	var out []unit
+	cat := map[string]polycut.Truth{}
+	for _, t := range polycut.Catalogue() {
+		cat[t.Name] = t
+	}
 	for _, pe := range plan(quick) {
-		t, ok := polycut.Find(pe.truth)
+		t, ok := cat[pe.truth]
 		if !ok {
 			kit.Fatalf("plan names unknown truth %q", pe.truth)
 		}
@@ -113,11 +211,13 @@ func units(quick bool) []unit {
 				continue
 			}
 			k := cfgKey(t.Name, c)
-			if seen[k] {
+			if at, dup := seen[k]; dup {
+				out[at].ext = out[at].ext || pe.ext
+				out[at].rot = out[at].rot && pe.rot
 				continue
 			}
-			seen[k] = true
-			out = append(out, unit{t, c})
+			seen[k] = len(out)
+			out = append(out, unit{t, c, pe.ext, pe.rot})
 		}
 	}
 	return out
@@ -135,15 +235,66 @@ type variant struct {
 	// positions, 2: those at odd positions); the others have none, as members
 	// added after the last annotation would
 	partial int
+
+	tags     bool // the relation carries two more tags in front of its type tag
+	waysDesc bool // way objects listed by descending piece number
+	wideIDs  bool // way and node ids small / beyond 40 bits (equal in the low 40 bits) / negative
+	mixed    bool // node objects AND coordinates on every other way node
+	extras   bool // a node, a relation and another node member mixed in (roles "outer", "inner", "")
+	// memberNodes: no way objects; the members carry their way's node list
+	// with locations only (osm.Member.Nodes, as Overpass returns geometry)
+	memberNodes bool
+	// twoRelations: the data set holds a second relation (id 2, type
+	// boundary) over the same ways, members in reverse order; each relation
+	// has to produce its own feature with the ground-truth geometry
+	twoRelations bool
+	// opts: 0 = Convert(o); 1 = NoID, NoMeta, NoRelationMembership and
+	// IncludeInvalidPolygons all on; 2 = IncludeInvalidPolygons alone. None of
+	// them is documented to alter the geometry of a valid multipolygon.
+	opts int
 }
 
 var variants = []variant{
 	{name: "nodes", typ: "multipolygon"},
-	{name: "waynodes+boundary", annotated: true, typ: "boundary"},
+	{name: "waynodes+boundary", annotated: true, typ: "boundary", tags: true},
 	{name: "oriented+nodes-desc", desc: true, typ: "multipolygon", oriented: true},
-	{name: "oriented+waynodes+boundary", annotated: true, typ: "boundary", oriented: true},
+	{name: "oriented+waynodes+boundary", annotated: true, typ: "boundary", oriented: true, tags: true},
 	{name: "partly-oriented-even+nodes", typ: "multipolygon", oriented: true, partial: 1},
 	{name: "partly-oriented-odd+waynodes", annotated: true, typ: "multipolygon", oriented: true, partial: 2},
+}
+
+// extended variants, run for the configurations of the plan entries marked x
+// (and for every replayed case)
+var extVariants = []variant{
+	{name: "wide-ids+ways-desc+nodes", typ: "multipolygon", wideIDs: true, waysDesc: true},
+	{name: "wide-ids+oriented+waynodes+all-options", annotated: true, typ: "boundary", oriented: true, wideIDs: true, opts: 1},
+	{name: "mixed-sources+include-invalid", typ: "multipolygon", mixed: true, opts: 2},
+	{name: "extras+nodes-desc", typ: "multipolygon", extras: true, desc: true},
+	{name: "extras+oriented+waynodes", annotated: true, typ: "boundary", oriented: true, extras: true, tags: true},
+	{name: "member-nodes", annotated: true, typ: "multipolygon", memberNodes: true},
+	{name: "two-relations+nodes", typ: "multipolygon", twoRelations: true},
+}
+
+var moreTags = osm.Tags{{Key: "boundary", Value: "administrative"}, {Key: "name", Value: "X"}}
+
+func (v variant) options() polycut.Options {
+	o := polycut.Options{Annotated: v.annotated, NodesDescending: v.desc, RelationType: v.typ,
+		WaysDescending: v.waysDesc, WideIDs: v.wideIDs, Mixed: v.mixed, Extras: v.extras, MemberNodes: v.memberNodes}
+	if v.tags {
+		o.RelationTags = moreTags
+	}
+	return o
+}
+
+func (v variant) convertOptions() []osmgeojson.Option {
+	switch v.opts {
+	case 1:
+		return []osmgeojson.Option{osmgeojson.NoID(true), osmgeojson.NoMeta(true),
+			osmgeojson.NoRelationMembership(true), osmgeojson.IncludeInvalidPolygons(true)}
+	case 2:
+		return []osmgeojson.Option{osmgeojson.IncludeInvalidPolygons(true)}
+	}
+	return nil
 }
 
 type failure struct {
@@ -195,20 +346,42 @@ func nonTrivial(b *polycut.Built) bool {
 	return false
 }
 
-// annotated returns the relation of b annotated by annotate.Relations against
-// a history datasource built from the case's ways (with annotated way nodes).
-func annotateRelation(t polycut.Truth, c polycut.Case, typ string) (*polycut.Built, error) {
-	b := polycut.Build(t, c, polycut.Options{Annotated: true, RelationType: typ})
-	ds := (&osm.OSM{Ways: b.OSM.Ways}).HistoryDatasource()
-	err := annotate.Relations(context.Background(), osm.Relations{b.Relation}, ds, annotate.Threshold(time.Hour))
+// datasource is the history datasource annotate.Relations works against: the
+// case's ways (with annotated way nodes) and the elements that the members
+// that are no ways refer to.
+func datasource(b *polycut.Built) *osm.HistoryDatasource {
+	return (&osm.OSM{Ways: b.OSM.Ways, Nodes: b.ExtraNodes, Relations: b.ExtraRelations}).HistoryDatasource()
+}
+
+// annotateRelation returns the relation of the case annotated by
+// annotate.Relations.
+func annotateRelation(t polycut.Truth, c polycut.Case, typ string, extras bool) (*polycut.Built, error) {
+	b := polycut.Build(t, c, polycut.Options{Annotated: true, RelationType: typ, Extras: extras})
+	err := annotate.Relations(context.Background(), osm.Relations{b.Relation}, datasource(b), annotate.Threshold(time.Hour))
 	return b, err
 }
 
-func oneFeature(fc *geojson.FeatureCollection) (orb.Geometry, string) {
+// checkOrientations compares the Orientation of every member with the
+// direction in which the stored way runs around its ground-truth ring (0 for
+// a member that is no way). It reports the first difference.
+func checkOrientations(col *collector, key string, b *polycut.Built, c polycut.Case) {
+	for i, m := range b.Relation.Members {
+		if m.Orientation != b.Members[i].Winding {
+			col.add(key,
+				fmt.Sprintf("member %d (%s %d, role %q, ring %d vertices %v) annotated %d, runs %d around its ring; case %s",
+					i, m.Type, m.Ref, m.Role, b.Members[i].Ring, b.Members[i].Vertices, m.Orientation, b.Members[i].Winding, c.Fingerprint()), c)
+			return
+		}
+	}
+}
+
+// features returns the geometries of the collection when it holds exactly
+// want features, else a description of what it holds.
+func features(fc *geojson.FeatureCollection, want int) ([]orb.Geometry, string) {
 	if fc == nil {
 		return nil, "nil feature collection"
 	}
-	if len(fc.Features) != 1 {
+	if len(fc.Features) != want {
 		var ids []string
 		for _, f := range fc.Features {
 			g := "nil"
@@ -219,55 +392,115 @@ func oneFeature(fc *geojson.FeatureCollection) (orb.Geometry, string) {
 		}
 		return nil, fmt.Sprintf("%d features %v", len(fc.Features), ids)
 	}
-	return fc.Features[0].Geometry, ""
+	gs := make([]orb.Geometry, len(fc.Features))
+	for i, f := range fc.Features {
+		gs[i] = f.Geometry
+	}
+	return gs, ""
 }
 
 type counts struct {
 	conv, annot int64
 }
 
-func checkCase(r *kit.Run, col *collector, t polycut.Truth, c polycut.Case, n *counts, sample bool) {
-	plain := polycut.Build(t, c, polycut.Options{})
+func checkCase(r *kit.Run, col *collector, t polycut.Truth, c polycut.Case, ext bool, n *counts, sample bool) {
+	plain := polycut.Build(t, c, variants[0].options())
 	r.Case(c.Fingerprint(), nonTrivial(plain))
 	if sample {
 		r.Sample(map[string]interface{}{"case": c, "members": plain.Members, "relation": plain.Relation})
 	}
-	checkCaseNoKit(col, t, c, n)
+	checkCaseNoKit(col, t, c, ext, n, plain)
 }
 
-func checkCaseNoKit(col *collector, t polycut.Truth, c polycut.Case, n *counts) {
-	shape := t.Shape()
+// comparers holds one prepared polycut.Comparer per truth.
+var comparers sync.Map
 
-	// orientation annotation, once per relation type
-	annotatedMembers := map[string]osm.Members{}
-	for _, typ := range []string{"multipolygon", "boundary"} {
-		b, err := annotateRelation(t, c, typ)
+func comparer(t polycut.Truth) *polycut.Comparer {
+	if v, ok := comparers.Load(t.Name); ok {
+		return v.(*polycut.Comparer)
+	}
+	v, _ := comparers.LoadOrStore(t.Name, polycut.NewComparer(t))
+	return v.(*polycut.Comparer)
+}
+
+// plain is the data set of variants[0] when the caller has built it already
+// (nothing has been done to it), else nil.
+func checkCaseNoKit(col *collector, t polycut.Truth, c polycut.Case, ext bool, n *counts, plain *polycut.Built) {
+	shape := t.Shape()
+	cmp := comparer(t)
+
+	// orientation annotation, once per relation type (and once more with
+	// members that are no ways mixed in)
+	type akey struct {
+		typ    string
+		extras bool
+	}
+	annotatedMembers := map[akey]osm.Members{}
+	runAnnotate := func(typ string, extras bool) *polycut.Built {
+		what := typ
+		if extras {
+			what += "+extras"
+		}
+		b, err := annotateRelation(t, c, typ, extras)
 		n.annot++
 		if err != nil {
-			col.add("annotate.error/"+typ+"/"+shape, fmt.Sprintf("annotate.Relations failed: %v for %s", err, c.Fingerprint()), c)
-			continue
+			col.add("annotate.error/"+what+"/"+shape, fmt.Sprintf("annotate.Relations failed: %v for %s", err, c.Fingerprint()), c)
+			return nil
 		}
-		annotatedMembers[typ] = b.Relation.Members
-		for i, m := range b.Relation.Members {
-			if m.Orientation != b.Members[i].Winding {
-				col.add("orientation/"+typ+"/"+shape,
-					fmt.Sprintf("member %d (way %d, %s, ring %d vertices %v) annotated %d, runs %d around its ring; case %s",
-						i, m.Ref, m.Role, b.Members[i].Ring, b.Members[i].Vertices, m.Orientation, b.Members[i].Winding, c.Fingerprint()), c)
-				break
+		// a copy: the relation itself is annotated a second time below
+		annotatedMembers[akey{typ, extras}] = append(osm.Members(nil), b.Relation.Members...)
+		checkOrientations(col, "orientation/"+what+"/"+shape, b, c)
+		return b
+	}
+	first := runAnnotate("multipolygon", false)
+	runAnnotate("boundary", false)
+	if ext {
+		runAnnotate("boundary", true)
+
+		// second call on the same relation: it now carries versions,
+		// changesets and orientations; those at odd positions are taken away
+		// again (members added since), the others have to be confirmed
+		if first != nil {
+			for i := range first.Relation.Members {
+				if i%2 == 1 {
+					first.Relation.Members[i].Orientation = 0
+				}
+			}
+			err := annotate.Relations(context.Background(), osm.Relations{first.Relation}, datasource(first), annotate.Threshold(time.Hour))
+			n.annot++
+			if err != nil {
+				col.add("annotate.error/again/"+shape, fmt.Sprintf("annotate.Relations on the annotated relation failed: %v for %s", err, c.Fingerprint()), c)
+			} else {
+				checkOrientations(col, "orientation/again/"+shape, first, c)
 			}
 		}
 	}
 
-	for _, v := range variants {
-		b := polycut.Build(t, c, polycut.Options{Annotated: v.annotated, NodesDescending: v.desc, RelationType: v.typ})
+	vs := variants
+	if ext {
+		vs = append(append([]variant(nil), variants...), extVariants...)
+	}
+	for vi, v := range vs {
+		var b *polycut.Built
+		if vi == 0 && plain != nil {
+			b = plain
+		} else {
+			b = polycut.Build(t, c, v.options())
+		}
 		if v.oriented {
-			am, ok := annotatedMembers[v.typ]
+			am, ok := annotatedMembers[akey{v.typ, v.extras}]
 			if !ok {
 				continue // annotation failed, already reported
 			}
-			// convert the annotated relation itself (same refs and roles,
-			// plus version, changeset and orientation)
-			b.Relation.Members = append(osm.Members(nil), am...)
+			// convert the annotated relation itself (same roles, plus
+			// version, changeset and orientation; the refs differ only in the
+			// wide-id variants, where the annotations are taken over member
+			// by member: a direction does not depend on an id)
+			for i := range b.Relation.Members {
+				m := am[i]
+				m.Ref = b.Relation.Members[i].Ref
+				b.Relation.Members[i] = m
+			}
 			if v.partial != 0 {
 				for i := range b.Relation.Members {
 					if i%2 == v.partial-1 {
@@ -277,26 +510,55 @@ func checkCaseNoKit(col *collector, t polycut.Truth, c polycut.Case, n *counts) 
 				}
 			}
 		}
-		fc, err := osmgeojson.Convert(b.OSM)
-		n.conv++
-		if err != nil {
-			col.add("convert.error/"+v.name+"/"+shape, fmt.Sprintf("Convert failed: %v for %s", err, c.Fingerprint()), c)
-			continue
+		want := 1
+		if v.twoRelations {
+			ms := b.Relation.Members
+			rev := make(osm.Members, len(ms))
+			for i := range ms {
+				rev[len(ms)-1-i] = ms[i]
+			}
+			b.OSM.Relations = append(b.OSM.Relations, &osm.Relation{
+				ID: polycut.RelationID + 1, Version: 1, Visible: true, Timestamp: polycut.RelationTime, ChangesetID: 8,
+				Tags: osm.Tags{{Key: "type", Value: "boundary"}}, Members: rev})
+			want = 2
 		}
-		g, why := oneFeature(fc)
-		if why != "" {
-			col.add("one-feature/"+v.name+"/"+shape, fmt.Sprintf("want exactly one feature, got %s; case %s", why, c.Fingerprint()), c)
-			continue
+		calls := 1
+		if ext && vi == 0 {
+			calls = 2 // second call on the same data set
 		}
-		if m := polycut.Compare(t, g); m != nil {
-			col.add("geometry."+m.Clause+"/"+v.name+"/"+shape,
-				fmt.Sprintf("%s; case %s; got %s", m.Detail, c.Fingerprint(), describe(g)), c)
+		for call := 1; call <= calls; call++ {
+			name := v.name
+			if call == 2 {
+				name += "+second-call"
+			}
+			fc, err := osmgeojson.Convert(b.OSM, v.convertOptions()...)
+			n.conv++
+			if err != nil {
+				col.add("convert.error/"+name+"/"+shape, fmt.Sprintf("Convert failed: %v for %s", err, c.Fingerprint()), c)
+				continue
+			}
+			gs, why := features(fc, want)
+			if why != "" {
+				col.add("one-feature/"+name+"/"+shape, fmt.Sprintf("want exactly one feature per relation (%d), got %s; case %s", want, why, c.Fingerprint()), c)
+				continue
+			}
+			for _, g := range gs {
+				if m := cmp.Compare(g); m != nil {
+					col.add("geometry."+m.Clause+"/"+name+"/"+shape,
+						fmt.Sprintf("%s; case %s; got %s", m.Detail, c.Fingerprint(), describe(t, g)), c)
+					break
+				}
+			}
 		}
 	}
 }
 
-// describe prints a geometry in grid units (coordinate * 1e7, rounded).
-func describe(g orb.Geometry) string {
+// describe prints a geometry in grid units (coordinate * units per degree, rounded).
+func describe(t polycut.Truth, g orb.Geometry) string {
+	div := t.Div
+	if div == 0 {
+		div = 1e7
+	}
 	grid := func(r orb.Ring) string {
 		var sb strings.Builder
 		sb.WriteByte('[')
@@ -304,7 +566,7 @@ func describe(g orb.Geometry) string {
 			if i > 0 {
 				sb.WriteByte(' ')
 			}
-			fmt.Fprintf(&sb, "(%d,%d)", int64(math.Round(p[0]*1e7)), int64(math.Round(p[1]*1e7)))
+			fmt.Fprintf(&sb, "(%d,%d)", int64(math.Round(p[0]*div)), int64(math.Round(p[1]*div)))
 		}
 		sb.WriteByte(']')
 		return sb.String()
@@ -332,14 +594,15 @@ func describe(g orb.Geometry) string {
 	if len(s) > 700 {
 		s = s[:700] + "..."
 	}
-	return s + " (grid units = 1e-7 degrees)"
+	return s + fmt.Sprintf(" (%g grid units = 1 degree)", div)
 }
 
 func main() {
 	kit.Main("C16", "exploration", func(r *kit.Run) {
-		r.Rule("case = ground truth (polycut catalogue: G1 one outer, G2 +1 hole, G3 +2 holes, G4 two outers, G5 two outers with a hole each; rings of 3-5 vertices, both stored windings) x per ring every non-empty cut-vertex set x every piece direction (within the tier's piece bound; for the larger truths some rings pinned to one closed way from vertex 0, both directions) x member order (every permutation up to 5 pieces quick / 6 thorough, above that all rotations and the reversal of the sequential and the ring-interleaved order). Each case is converted 4 times (node objects ascending/descending or annotated way nodes; type multipolygon/boundary; members plain or carrying the orientation annotations of annotate.Relations) and annotated twice. Distinct = distinct (truth, cuts, directions, order); non-trivial = some ring must be joined from >= 2 pieces or some stored way runs against the required winding of its ring.")
+		r.Rule("case = ground truth (polycut catalogue: G1 one outer, G2 +1 hole, G3 +2 holes, G4 two outers, G5 two outers with a hole each, G6 U shapes, G7 three outers (with and without a hole each), G8 one outer with three holes, G9 rings one grid unit apart, G10 hole vertices level with - sharing a lat or a lon with - local minima, local maxima, pass-through vertices and horizontal edges of the other outers / of their own outer, G11 runs of collinear vertices, G12 slivers and ordinary shapes near lon +-180 / lat +-90 in all four sign quadrants and outers 100 degrees apart, G13 locations with nine decimals; rings of 3-8 vertices, both stored windings) x per ring every non-empty cut-vertex set x every piece direction (within the tier's piece bound; for the larger truths some rings pinned to one closed way from vertex 0, both directions) x member order (every permutation up to 5 pieces quick / 6 thorough, above that - and for the entries marked rot - all rotations and the reversal of the sequential and the ring-interleaved order). Each case is converted 6 times (node objects ascending/descending or annotated way nodes; type multipolygon / boundary with further tags; members plain, all or every other one carrying the orientation annotations of annotate.Relations) and annotated twice. The cases of the plan entries marked x (cases_with_extended_variants) are also converted with way and node ids spread over small / beyond 2^40 and equal to another id in the low 40 bits / negative, with the way objects listed in descending order, with both coordinate sources mixed inside every way, with a node member (role outer, ref = a way's id), a relation member (role inner) and a node member (empty role) mixed into the member list, with the converter options on (all four; IncludeInvalidPolygons alone), with the geometry on the members (osm.Member.Nodes) instead of way objects, a second time on the same data set; they are annotated with the non-way members present (those must stay without orientation) and a second time after every other orientation was taken away. Distinct = distinct (truth, cuts, directions, order); non-trivial = some ring must be joined from >= 2 pieces or some stored way runs against the required winding of its ring.")
 		r.Assume("polycut's integer geometry (shoelace winding, crossing-number point location, segment intersection) is correct; it validates every ground truth (simple, disjoint, holes strictly inside) at start-up")
-		r.Assume("float64(X)/1e7 identifies a grid vertex uniquely; the converter copies coordinates without arithmetic, so output points are matched to vertices by exact float equality")
+		r.Assume("float64(X)/1e7 (G13: /1e9) identifies a grid vertex uniquely (checked for every ground truth at start-up); the converter copies coordinates without arithmetic, so output points are matched to vertices by exact float equality")
+		r.Assume("not judged, because the property text does not decide them: a way listed twice as a member, member ways with a role other than outer/inner, orientation annotations that contradict the geometry, a vertex at exactly (0,0)")
 		r.Assume("a single ground-truth polygon may be emitted as Polygon or as one-element MultiPolygon")
 
 		col := &collector{m: map[string]*failure{}}
@@ -351,7 +614,7 @@ func main() {
 				kit.Fatalf("replay names unknown truth %q", c.Truth)
 			}
 			var n counts
-			checkCase(r, col, t, c, &n, true)
+			checkCase(r, col, t, c, true, &n, true)
 			report(r, col)
 			return
 		}
@@ -362,6 +625,7 @@ func main() {
 		perTruth := map[string]int64{}
 		perPieces := map[string]int64{}
 		var total counts
+		var extCases int64
 		capped := false
 		r.Par(len(us), func(i int) {
 			if r.TimeUp() {
@@ -372,13 +636,20 @@ func main() {
 			}
 			u := us[i]
 			var n counts
-			orders := polycut.Orders(u.cfg, full)
+			upTo := full
+			if u.rot {
+				upTo = 0
+			}
+			orders := polycut.Orders(u.cfg, upTo)
 			for k, o := range orders {
 				// samples: the middle order of six configurations spread over the plan
 				sample := k == len(orders)/2 && i%(len(us)/6+1) == len(us)/12
-				checkCase(r, col, u.truth, polycut.Case{Truth: u.truth.Name, Config: u.cfg, Order: o}, &n, sample)
+				checkCase(r, col, u.truth, polycut.Case{Truth: u.truth.Name, Config: u.cfg, Order: o}, u.ext, &n, sample)
 			}
 			mu.Lock()
+			if u.ext {
+				extCases += int64(len(orders))
+			}
 			perTruth[u.truth.Name] += int64(len(orders))
 			perPieces[fmt.Sprintf("pieces=%02d", u.cfg.Pieces())] += int64(len(orders))
 			total.conv += n.conv
@@ -391,6 +662,7 @@ func main() {
 		r.Set("configurations", len(us))
 		r.Set("cases_per_truth", perTruth)
 		r.Set("cases_per_piece_count", perPieces)
+		r.Set("cases_with_extended_variants", extCases)
 		r.Set("conversions", total.conv)
 		r.Set("annotations", total.annot)
 		r.Set("full_permutations_up_to_pieces", full)
